@@ -807,6 +807,12 @@ def oracle_C16(rs, n, ctx):
         kind = str(rs.choice(["homog", "layered", "gradient", "lognormal"]))
         v, kind = gens.rand_model(rs, cells, kind=kind)
         E = eik(nd)(v.copy(), d, o)
+        # history: every other model is solved once BEFORE it is edited (anything derived from the model and kept by the
+        # object - a cached slowness, cached axes - must not survive resample / smooth)
+        mid = np.array([o[a] + 0.5 * cells[a] * d[a] for a in range(nd)])
+        if it % 2 == 0:
+            E.solve(mid)
+            E(mid)
         new_shape = tuple(int(rs.randint(2, 12 if nd == 2 else 6)) for _ in range(nd))
         method = str(rs.choice(["linear", "nearest"]))
         rep = model_replay(v, d, o, [0.0] * nd, kind=str(kind), new_shape=list(new_shape), method=method)
@@ -857,6 +863,9 @@ def oracle_C16(rs, n, ctx):
                         R.violate("C16:resample-monotone", "monotone profile not preserved", rep)
         # smooth: unit invariance, constants, range, metadata; then solve uses the edited model
         E2 = eik(nd)(v.copy(), d, o)
+        if it % 2 == 0:
+            E2.solve(mid)
+            E2(mid)
         sigma = float(rs.uniform(0.3, 2.5)) * float(np.mean(d)) if rs.rand() < 0.5 else [float(rs.uniform(0.3, 2.5) * d[a]) for a in range(nd)]
         # unit changes from the everyday (m <-> km) to the extreme (m <-> nm): an absolute tolerance on a length shows at the extremes
         c = float(rs.choice([0.001, 1000.0, 2.0, 1e-9, 1e9, 1e-12]))
